@@ -76,10 +76,24 @@ Section Binding.
 
   (** a spread is effective when it binds at least one import: one that no explicit argument and no
       earlier spread provides *)
+  Definition spread_binds (imports : list str) (explicit : list (str * V))
+             (before : list spread_src) (sp : spread_src) : list str :=
+    filter (fun i => negb (has_key explicit i) && mem i (sp_exports sp)
+                     && negb (existsb (fun q => mem i (sp_exports q)) before)) imports.
+
   Definition spread_effective (imports : list str) (explicit : list (str * V))
              (before : list spread_src) (sp : spread_src) : bool :=
-    existsb (fun i => negb (has_key explicit i) && mem i (sp_exports sp)
-                      && negb (existsb (fun q => mem i (sp_exports q)) before)) imports.
+    match spread_binds imports explicit before sp with [] => false | _ :: _ => true end.
+
+  (** the imports each spread binds, spread by spread, in spread order *)
+  Fixpoint spread_bound (imports : list str) (explicit : list (str * V))
+           (before rest : list spread_src) : list (str * spread_src) :=
+    match rest with
+    | [] => []
+    | sp :: r =>
+        map (fun i => (i, sp)) (spread_binds imports explicit before sp)
+        ++ spread_bound imports explicit (before ++ [sp]) r
+    end.
 End Binding.
 Arguments spread_src : clear implicits.
 Arguments binding : clear implicits.
@@ -316,9 +330,9 @@ Section Spec.
         r <~ explicit_args evalf names args [] ;;
         let '(explicit, fill) := r in
         spreads <~ spread_args names explicit args [] ;;
+        (* arguments are checked as they are bound: explicit ones, then spread by spread *)
         let from_spreads :=
-          flat_map (fun i => if has_key explicit i then [] else
-                             match first_spread spreads i with Some sp => [(i, VAccess (sp_val sp) i)] | None => [] end) names in
+          map (fun b => (fst b, VAccess (sp_val (snd b)) (fst b))) (spread_bound names explicit [] spreads) in
         _ <~ check_args imports (explicit ++ from_spreads) ;;
         let bs := map (fun i => (i, bind_import explicit spreads fill i)) names in
         match find (fun b => match snd b with BMissing => true | _ => false end) bs with
